@@ -108,6 +108,8 @@ def run(gaf_path, gfa=None, output=None, index=None, nodes=[], regions=[], forma
         if regions:
             assert nodes == []
             nodes = get_unstable(regions, ind)
+            if len(nodes) == 0:
+                raise CommandLineError("No alignments found for the given nodes/regions")
         offsets = ind[ind_dict[nodes[0]]]
         for nd in nodes[1:]:
             # extracting all the lines that touches at least one of the nodes
@@ -159,7 +161,7 @@ def run(gaf_path, gfa=None, output=None, index=None, nodes=[], regions=[], forma
 
 
 def get_unstable(regions, index):
-    """Takes the regions and returns the node IDs"""
+    """Takes the regions and returns the IDs of the indexed nodes overlapping them"""
 
     contig = [x.split(":")[0] for x in regions]
     node_dict = {}
@@ -177,41 +179,41 @@ def get_unstable(regions, index):
 
         node = search([contig[n], start[n], end[n]], node_list)
         if len(node) > 1:
-            logger.info("INFO: Region %s spans multiple nodes.\nThe nodes are:" % (node[n]))
-            for n in node:
-                logger.info("INFO: %s\t%s\t%d\t%d" % (n[0], n[1], n[2], n[3]))
+            logger.info("INFO: Region %s spans multiple nodes.\nThe nodes are:" % (regions[n]))
+            for nd in node:
+                logger.info("INFO: %s\t%s\t%d\t%d" % (nd[0], nd[1], nd[2], nd[3]))
 
-        result.append(node[0][0])
+        for nd in node:
+            if nd[0] not in result:
+                result.append(nd[0])
 
     return result
 
 
 def search(node, node_list):
-    """Find the unstable node id from the region"""
+    """Find the indexed nodes whose stable interval overlaps the region.
 
-    s = 0
-    pos = 0
-    e = len(node_list) - 1
+    node_list holds the nodes of one contig sorted by start. Only nodes with alignments are
+    indexed, so consecutive entries need not be adjacent and the region may fall into a gap.
+    """
+
     q_s = int(node[1])
     q_e = int(node[2])
-    while s != e:
-        m = int((s + e) / 2)
-        if (q_s >= node_list[m][2]) and (q_s < node_list[m][3]):
-            pos = m
-            break
-        elif q_s >= node_list[m][3]:
+    # bisection for the first node that ends after the region start
+    s = 0
+    e = len(node_list)
+    while s < e:
+        m = (s + e) // 2
+        if node_list[m][3] <= q_s:
             s = m + 1
         else:
-            e = m - 1
-        pos = s
-    # if there is only one node for the entire contig (case for non-reference nodes)
-    # then the above loop is not executed and we extract the only node with pos=0
-    result = [node_list[pos]]
-    while True:
-        if q_e < node_list[pos][3]:
-            break
-        pos += 1
+            e = m
+    # all following nodes that start at or before the region end
+    result = []
+    pos = s
+    while pos < len(node_list) and node_list[pos][2] <= q_e:
         result.append(node_list[pos])
+        pos += 1
 
     return result
 
